@@ -197,6 +197,17 @@ func (r *DocumentHandler) ProcessOperation(operationBuffer []byte, protocolVersi
 
 	r.metrics.DecorateOperationTime(time.Since(decorateOperationStartTime))
 
+	// the answer to a create operation is prepared before the operation leaves a trace anywhere:
+	// an operation that is answered with an error must not have been stored or queued
+	var createResponse *document.ResolutionResult
+
+	if op.Type == operation.TypeCreate {
+		createResponse, err = r.getCreateResponse(op, pv)
+		if err != nil {
+			return nil, err
+		}
+	}
+
 	unpublishedOp := r.getUnpublishedOperation(op, pv)
 
 	addUnpublishedOperationStartTime := time.Now()
@@ -224,11 +235,7 @@ func (r *DocumentHandler) ProcessOperation(operationBuffer []byte, protocolVersi
 	logger.Debug("Operation added to the batch", logfields.WithOperationID(op.ID))
 
 	// create operation will also return document
-	if op.Type == operation.TypeCreate {
-		return r.getCreateResponse(op, pv)
-	}
-
-	return nil, nil
+	return createResponse, nil
 }
 
 func (r *DocumentHandler) getUnpublishedOperation(op *operation.Operation, pv protocol.Version) *operation.AnchoredOperation {
